@@ -331,6 +331,7 @@ def enclosing_conjuncts(fn, target, index=None):
 
     def visit(body, guards):
         nonlocal res
+        guards = list(guards)
         for st in body:
             if st is target:
                 res = list(guards)
@@ -340,6 +341,9 @@ def enclosing_conjuncts(fn, target, index=None):
                     return True
                 if visit(st.orelse, guards + conj(st.test, False)):
                     return True
+                # guard clause: what follows runs only when the test was false
+                if st.body and isinstance(st.body[-1], (ast.Return, ast.Raise, ast.Continue, ast.Break)) and not st.orelse:
+                    guards = guards + conj(st.test, False)
             else:
                 for blk in ("body", "orelse", "finalbody"):
                     b = getattr(st, blk, None)
